@@ -283,6 +283,9 @@ func NewPairing(s, c string) (*Pairing, error) {
 		if v < 0 || cr[i] < 0 || v > unicode.MaxASCII || cr[i] > unicode.MaxASCII {
 			return nil, errors.New("alphabet: pairing definition contains non-ASCII rune")
 		}
+		if p.ok[v] && p.pair[v] != Letter(cr[i]) {
+			return nil, errors.New("alphabet: pairing definition is not a bijection")
+		}
 		p.pair[v] = Letter(cr[i])
 		p.ok[v] = true
 	}
